@@ -452,6 +452,73 @@ fn dft_one(n: usize, d: FftDirection, f: &dyn Fft<f64>, desc: &str) -> Option<St
     }
     None
 }
+
+// C12 / C01 at composition level: expression trees over the PUBLIC constructors (leaves: Dft and the fixed-size butterflies; wrappers:
+// MixedRadix, MixedRadixSmall, GoodThomasAlgorithm(Small), Radix4 / Radix3::new_with_base, RadersAlgorithm, BluesteinsAlgorithm with
+// every admissible length for the given inner transform), each built within its documented precondition and compared against the DFT
+// definition through all four entry points (dft_one).  depth 1: every wrapper over leaves; depth 2: every wrapper over a depth-1 node
+// and a leaf (bounded by the composite length).
+fn compose(max_len: usize, deep: bool) -> Option<String> {
+    use crate::algorithm::butterflies::*;
+    let mut leaves: Vec<(String, Arc<dyn Fft<f64>>)> = Vec::new();
+    for d in [FftDirection::Forward, FftDirection::Inverse] {
+        for n in [1usize, 2, 3, 4, 5, 6, 7] { leaves.push((format!("Dft::new({n}, {d:?})"), Arc::new(Dft::new(n, d)))); }
+        macro_rules! bf { ($($t:ident),*) => { $( leaves.push((format!("{}::new({d:?})", stringify!($t)), Arc::new($t::new(d)) as Arc<dyn Fft<f64>>)); )* } }
+        bf!(Butterfly2, Butterfly3, Butterfly4, Butterfly5, Butterfly6, Butterfly7, Butterfly8, Butterfly9, Butterfly11, Butterfly12, Butterfly13, Butterfly16);
+    }
+    let wrap = |inner: &[(String, Arc<dyn Fft<f64>>)], others: &[(String, Arc<dyn Fft<f64>>)], limit: usize| -> Result<Vec<(String, Arc<dyn Fft<f64>>)>, String> {
+        let mut out: Vec<(String, Arc<dyn Fft<f64>>)> = Vec::new();
+        let mut push = |desc: String, b: std::thread::Result<Arc<dyn Fft<f64>>>| -> Result<(), String> {
+            match b { Err(e) => Err(format!("{desc} panicked under its documented precondition: {}", panic_msg(e))), Ok(f) => { out.push((desc, f)); Ok(()) } }
+        };
+        for (da, a) in inner {
+            let (la, dir) = (a.len(), a.fft_direction());
+            // one-inner wrappers
+            if la + 1 <= limit && la >= 1 && is_prime_naive(la + 1) { let a2 = Arc::clone(a); push(format!("RadersAlgorithm::new({da})"), quiet(move || Arc::new(RadersAlgorithm::new(a2)) as Arc<dyn Fft<f64>>))?; }
+            for len in 1..=((la + 1) / 2) { if len <= limit && (len == (la + 1) / 2 || len == 1 || len == (la + 1) / 2 - 1) { let a2 = Arc::clone(a); push(format!("BluesteinsAlgorithm::new({len}, {da})"), quiet(move || Arc::new(BluesteinsAlgorithm::new(len, a2)) as Arc<dyn Fft<f64>>))?; } }
+            for k in 1..=2u32 {
+                if la * 4usize.pow(k) <= limit { let a2 = Arc::clone(a); push(format!("Radix4::new_with_base({k}, {da})"), quiet(move || Arc::new(Radix4::new_with_base(k, a2)) as Arc<dyn Fft<f64>>))?; }
+                if la * 3usize.pow(k) <= limit { let a2 = Arc::clone(a); push(format!("Radix3::new_with_base({k}, {da})"), quiet(move || Arc::new(Radix3::new_with_base(k, a2)) as Arc<dyn Fft<f64>>))?; }
+            }
+            // two-inner wrappers (same direction)
+            for (db, b) in others {
+                let lb = b.len();
+                if b.fft_direction() != dir || la * lb > limit || la * lb < 2 { continue; }
+                for swap in [false, true] {
+                    let (x, y, dx, dy) = if swap { (Arc::clone(b), Arc::clone(a), db, da) } else { (Arc::clone(a), Arc::clone(b), da, db) };
+                    { let (x, y) = (Arc::clone(&x), Arc::clone(&y)); push(format!("MixedRadix::new({dx}, {dy})"), quiet(move || Arc::new(MixedRadix::new(x, y)) as Arc<dyn Fft<f64>>))?; }
+                    let small_ok = |f: &Arc<dyn Fft<f64>>| f.get_outofplace_scratch_len() == 0 && f.get_inplace_scratch_len() <= f.len();
+                    if small_ok(&x) && small_ok(&y) { let (x, y) = (Arc::clone(&x), Arc::clone(&y)); push(format!("MixedRadixSmall::new({dx}, {dy})"), quiet(move || Arc::new(MixedRadixSmall::new(x, y)) as Arc<dyn Fft<f64>>))?; }
+                    if num_integer::gcd(la, lb) == 1 {
+                        { let (x, y) = (Arc::clone(&x), Arc::clone(&y)); push(format!("GoodThomasAlgorithm::new({dx}, {dy})"), quiet(move || Arc::new(GoodThomasAlgorithm::new(x, y)) as Arc<dyn Fft<f64>>))?; }
+                        if small_ok(&x) && small_ok(&y) { let (x, y) = (Arc::clone(&x), Arc::clone(&y)); push(format!("GoodThomasAlgorithmSmall::new({dx}, {dy})"), quiet(move || Arc::new(GoodThomasAlgorithmSmall::new(x, y)) as Arc<dyn Fft<f64>>))?; }
+                    }
+                    if la == lb { break; }
+                }
+            }
+        }
+        Ok(out)
+    };
+    let check = |nodes: &[(String, Arc<dyn Fft<f64>>)]| -> Option<String> {
+        for (desc, f) in nodes {
+            eprintln!("CASE {desc}");
+            let r = quiet(|| dft_one(f.len(), f.fft_direction(), &**f, desc));
+            match r { Err(e) => return Some(format!("{desc}: a well-shaped call panicked: {}", panic_msg(e))), Ok(Some(x)) => return Some(x), Ok(None) => {} }
+        }
+        None
+    };
+    let depth1 = match wrap(&leaves, &leaves, max_len) { Ok(v) => v, Err(e) => return Some(e) };
+    if let Some(x) = check(&depth1) { return Some(x); }
+    if deep {
+        // depth 2: wrappers over a (thinned) set of depth-1 nodes and the small leaves
+        let small: Vec<(String, Arc<dyn Fft<f64>>)> = leaves.iter().filter(|(_, f)| f.len() <= 5).map(|(d, f)| (d.clone(), Arc::clone(f))).collect();
+        let d1: Vec<(String, Arc<dyn Fft<f64>>)> = depth1.iter().enumerate().filter(|(i, (_, f))| f.len() <= 40 && i % 3 == 0).map(|(_, (d, f))| (d.clone(), Arc::clone(f))).collect();
+        let depth2 = match wrap(&d1, &small, 4 * max_len) { Ok(v) => v, Err(e) => return Some(e) };
+        if let Some(x) = check(&depth2) { return Some(x); }
+    }
+    None
+}
+
 fn dft_scalar(limit: usize, big: bool) -> Option<String> {
     let mut lens: Vec<usize> = (1..limit).collect();
     let mut extra: Vec<usize> = vec![625, 1000, 1024, 1296, 2048, 2187, 2401, 3125, 4096, 5120, 8192, 16384, 1009, 2003, 4099, 1234, 6561, 15625];
@@ -588,6 +655,10 @@ pub mod opcount {
 
 pub fn search(which: &str) -> Option<String> {
     if simd::known(which) { return simd::search(which); }
+    if let Some(rest) = which.strip_prefix("compose:") {
+        let v: Vec<usize> = rest.split(',').filter_map(|x| x.parse().ok()).collect();
+        return compose(*v.get(0).unwrap_or(&48), *v.get(1).unwrap_or(&0) != 0);
+    }
     if let Some(rest) = which.strip_prefix("opcount:") {
         let v: Vec<usize> = rest.split(',').map(|x| x.parse().unwrap_or(0)).collect();
         return opcount::search(*v.get(0).unwrap_or(&256), *v.get(1).unwrap_or(&0), *v.get(2).unwrap_or(&0));
@@ -665,7 +736,7 @@ pub fn search(which: &str) -> Option<String> {
     }
 }
 pub fn known(which: &str) -> bool {
-    simd::known(which) || which.starts_with("opcount:") || which.starts_with("dft_scalar:") || which.starts_with("partition:") || which.starts_with("plan_scalar:") || which.starts_with("plan_history:") || which.starts_with("shapes:") || which.starts_with("chunks:") || which == "helpers_small" || which == "sqrt_limit" || which.starts_with("primroot:") || which.starts_with("scalar_pairs:")
+    simd::known(which) || which.starts_with("opcount:") || which.starts_with("compose:") || which.starts_with("dft_scalar:") || which.starts_with("partition:") || which.starts_with("plan_scalar:") || which.starts_with("plan_history:") || which.starts_with("shapes:") || which.starts_with("chunks:") || which == "helpers_small" || which == "sqrt_limit" || which.starts_with("primroot:") || which.starts_with("scalar_pairs:")
         || matches!(which, "MixedRadix" | "MixedRadixSmall" | "GoodThomasAlgorithm" | "GoodThomasAlgorithmSmall" | "Radix4" | "Radix3" | "RadersAlgorithm" | "BluesteinsAlgorithm")
 }
 
